@@ -127,10 +127,11 @@ Local Notation peval := (peval O).
 Local Notation evals := (evals O).
 
 (* abstract stages of the protocol (Section variables of Model/Stark.v) *)
-Variables (Digest FriProof : Type).
+Variables (Digest Opening FriProof : Type).
 Variable commit : list (list F) -> Digest.
-Variable open_ok : Digest -> F -> list F -> bool.
-Variable fri_prove : list F -> FriProof.
+Variable open_prove : list (list F) -> list F -> Opening.
+Variable open_ok : Digest -> list F -> list (list F) -> Opening -> bool.
+Variable fri_prove : list F -> list F -> FriProof.
 Variable fri_verify : FriProof -> nat -> list F -> list F -> bool.
 Variable air_eval : F -> list F -> list F -> F.
 Variable interp_ce : (F -> F) -> list F.
@@ -140,22 +141,16 @@ Variable ce_coset : list F.     (* the constraint evaluation domain offset * <g_
 Variable lde : list F.          (* the LDE domain offset * <g_lde> *)
 
 (* ---- NAMED stage hypotheses (to be discharged from C10/C09/C15/C04 by the coordinator) ---- *)
-(* C10 + C09: the row opened at a queried point of a committed list of polynomials is the row of their evaluations,
-   and its authentication path verifies against the commitment *)
-Hypothesis merkle_complete : forall (cs : list (list F)) x, In x lde -> open_ok (commit cs) x (evals cs x) = true.
+(* C10 + C09: the batch opening, at query points of the LDE domain, of a committed list of polynomials contains the rows
+   of their evaluations, and verifies against the commitment (discharged from C10_batch_complete in Proofs/StarkInst.v) *)
+Hypothesis merkle_complete : forall (cs : list (list F)) xs, incl xs lde -> NoDup xs -> xs <> [] -> length xs <= 255 ->
+  open_ok (commit cs) xs (map (evals cs) xs) (open_prove cs xs) = true.
 (* C15: FRI accepts the evaluations, at query points of the LDE domain, of a polynomial given by n coefficients
    whose top coefficient is zero (degree <= n - 2) *)
-Hypothesis fri_complete : forall d xs, length d = n -> last d zero = zero -> incl xs lde ->
-  fri_verify (fri_prove d) (n - 2) xs (map (peval d) xs) = true.
-Local Notation prove := (prove O Digest FriProof commit fri_prove air_eval interp_ce).
-Local Notation verify := (verify O Digest FriProof open_ok fri_verify air_eval).
-
-Lemma zip3_open (cs : list (list F)) : forall xs, incl xs lde ->
-  zip3_all (fun x r (_ : unit) => open_ok (commit cs) x r) xs (map (evals cs) xs) (map (fun _ => tt) xs) = true.
-Proof.
-  induction xs as [|x xs IH]; intros Hi; [reflexivity|]. simpl.
-  rewrite merkle_complete by (apply Hi; now left). apply IH. intros y Hy. apply Hi. now right.
-Qed.
+Hypothesis fri_complete : forall d xs, length d = n -> last d zero = zero -> incl xs lde -> xs <> [] -> length xs <= 255 ->
+  fri_verify (fri_prove d xs) (n - 2) xs (map (peval d) xs) = true.
+Local Notation prove := (prove O Digest Opening FriProof commit open_prove fri_prove air_eval interp_ce).
+Local Notation verify := (verify O Digest Opening FriProof open_ok fri_verify air_eval).
 
 (* stark_complete_partial.
    FULL statement aimed at (DESIGN.md C01): admissible params -> valid trace -> z not in (LDE coset u trace domain) ->
@@ -175,11 +170,12 @@ Theorem stark_complete_core (dbg : bool) (cP cV : @Coin F) (Ts : list (list F)) 
   interp_ce (fun x => air_eval x (evals Ts x) (evals Ts (x *f g))) = Q ++ repeat zero (ce_size - length Q) ->
   cV = cP ->
   ~ In (c_z cP) (domain O g n) -> c_z cP <> zero -> c_z cP *f g <> zero ->
-  incl (c_xs cP) lde -> (forall x, In x (c_xs cP) -> x <> c_z cP /\ x <> c_z cP *f g) ->
+  incl (c_xs cP) lde -> NoDup (c_xs cP) -> c_xs cP <> [] -> length (c_xs cP) <= 255 ->
+  (forall x, In x (c_xs cP) -> x <> c_z cP /\ x <> c_z cP *f g) ->
   exists pf, prove (mkParams n g cols false dbg) cP Ts = Done pf /\
              verify (mkParams n g cols false dbg) cV pf = None.
 Proof.
-  intros Hn Hcols Hce HTs HTl HQl HQ EH -> Hz Hz0 Hzg0 Hxs Hxz.
+  intros Hn Hcols Hce HTs HTl HQl HQ EH -> Hz Hz0 Hzg0 Hxs Hnd Hne H255 Hxz.
   set (z := c_z cP) in *.
   set (f := fun x => air_eval x (evals Ts x) (evals Ts (x *f g))) in *.
   set (H := interp_ce f) in *.
@@ -192,7 +188,8 @@ Proof.
   destruct (deep_trace_shape O L n g z (c_gamma cP) Ts ltac:(lia) HTl cur nxt) as [D01 D02]. fold d0 in D01, D02.
   destruct (deep_shape O L n g cP Ts Hs ltac:(lia) HTl S2 cur nxt hz) as [D1 D2].
   unfold deep_poly in D1, D2. fold z d0 d in D1, D2.
-  exists (mkProof Digest FriProof (commit Ts) (commit Hs) cur nxt hz (map (evals Ts) (c_xs cP)) (map (evals Hs) (c_xs cP)) (fri_prove d)).
+  exists (mkProof Digest Opening FriProof (commit Ts) (commit Hs) cur nxt hz (map (evals Ts) (c_xs cP)) (map (evals Hs) (c_xs cP))
+            (open_prove Ts (c_xs cP)) (open_prove Hs (c_xs cP)) (fri_prove d (c_xs cP))).
   split.
   - unfold Stark.prove. cbn [p_n p_g p_cols p_strict p_dbg]. fold z f H.
     (* the debug-only assertion of segment(): degree_of(coefficients) < trace_len * num_cols *)
@@ -212,14 +209,14 @@ Proof.
     assert (A1 : deep_assert O false n d = true).
     { unfold deep_assert. apply Nat.leb_le. rewrite <- D1. now apply (degree_of_top_zero O L). }
     rewrite A0, A1. reflexivity.
-  - unfold Stark.verify. cbn [p_n p_g pf_cur pf_nxt pf_hz pf_trace_root pf_comp_root pf_trows pf_hrows pf_fri]. fold z.
+  - unfold Stark.verify. cbn [p_n p_g pf_cur pf_nxt pf_hz pf_trace_root pf_comp_root pf_trows pf_hrows pf_topen pf_hopen pf_fri]. fold z.
     (* the OOD consistency equation *)
     assert (E1 : air_eval z cur nxt = peval Q z) by (apply HQ; exact Hz).
     assert (E2 : ood_lhs O n z 0 hz = peval Q z).
     { unfold hz, Hs. rewrite (segment_firstn n ltac:(lia)), (segments_eval O L) by (rewrite firstn_length; lia).
       rewrite EH. apply (peval_firstn_padded O L). exact HQl. }
     rewrite E1, E2, (feqb_refl O L). cbn [negb].
-    rewrite (zip3_open Ts _ Hxs), (zip3_open Hs _ Hxs). cbn [negb].
+    rewrite (merkle_complete Ts _ Hxs Hnd Hne H255), (merkle_complete Hs _ Hxs Hnd Hne H255). cbn [negb].
     (* the verifier's DEEP evaluations are the evaluations of the prover's DEEP polynomial *)
     assert (E3 : forall xs, (forall x, In x xs -> x <> z /\ x <> z *f g) ->
       map3 (fun x tr hr => v_deep O g cP x tr hr cur nxt hz) xs (map (evals Ts) xs) (map (evals Hs) xs) = map (peval d) xs).
@@ -227,7 +224,7 @@ Proof.
       - destruct (Hx x (or_introl eq_refl)) as [X1 X2].
         symmetry. apply (query_consistency O L n g cP Ts Hs ltac:(lia) x X1 X2).
       - apply IH. intros y Hy. apply Hx. now right. }
-    rewrite (E3 _ Hxz), (fri_complete d (c_xs cP) D1 D2 Hxs). reflexivity.
+    rewrite (E3 _ Hxz), (fri_complete d (c_xs cP) D1 D2 Hxs Hne H255). reflexivity.
 Qed.
 
 (* C09: interpolation over the constraint evaluation coset recovers a polynomial with at most ce_size coefficients
@@ -247,11 +244,12 @@ Theorem stark_complete_partial (dbg : bool) (cP cV : @Coin F) (Ts : list (list F
   cV = cP ->
   (* z is outside the trace domain, z and z*g are non-zero; the query points are LDE points different from z and z*g *)
   ~ In (c_z cP) (domain O g n) -> c_z cP <> zero -> c_z cP *f g <> zero ->
-  incl (c_xs cP) lde -> (forall x, In x (c_xs cP) -> x <> c_z cP /\ x <> c_z cP *f g) ->
+  incl (c_xs cP) lde -> NoDup (c_xs cP) -> c_xs cP <> [] -> length (c_xs cP) <= 255 ->
+  (forall x, In x (c_xs cP) -> x <> c_z cP /\ x <> c_z cP *f g) ->
   exists pf, prove (mkParams n g cols false dbg) cP Ts = Done pf /\
              verify (mkParams n g cols false dbg) cV pf = None.
 Proof.
-  intros Hn Hcols Hce HTs HTl HQl HQ Hc Hz Hz0 Hzg0 Hxs Hxz.
+  intros Hn Hcols Hce HTs HTl HQl HQ Hc Hz Hz0 Hzg0 Hxs Hnd Hne H255 Hxz.
   apply (stark_complete_core dbg cP cV Ts Q); try assumption.
   apply interp_complete; [lia|]. intros x Hx. apply HQ. now apply coset_off_domain.
 Qed.
@@ -269,11 +267,12 @@ Theorem stark_complete_valid_trace_partial (dbg : bool) (cP cV : @Coin F) (Ts : 
   (forall x, ~ In x (domain O g n) -> air_eval x (evals Ts x) (evals Ts (x *f g)) = combined O g n e N bs x) ->
   cV = cP ->
   ~ In (c_z cP) (domain O g n) -> c_z cP <> zero -> c_z cP *f g <> zero ->
-  incl (c_xs cP) lde -> (forall x, In x (c_xs cP) -> x <> c_z cP /\ x <> c_z cP *f g) ->
+  incl (c_xs cP) lde -> NoDup (c_xs cP) -> c_xs cP <> [] -> length (c_xs cP) <= 255 ->
+  (forall x, In x (c_xs cP) -> x <> c_z cP /\ x <> c_z cP *f g) ->
   exists pf, prove (mkParams n g cols false dbg) cP Ts = Done pf /\
              verify (mkParams n g cols false dbg) cV pf = None.
 Proof.
-  intros Hg Hn Hcols Hce HTs HTl He Hv HNl Hbs Hair Hc Hz Hz0 Hzg0 Hxs Hxz.
+  intros Hg Hn Hcols Hce HTs HTl He Hv HNl Hbs Hair Hc Hz Hz0 Hzg0 Hxs Hnd Hne H255 Hxz.
   destruct (air_quotient_exists O L g n e N bs (n * cols) Hg ltac:(lia) He Hv HNl Hbs) as (Q & HQl & HQ).
   apply (stark_complete_partial dbg cP cV Ts Q); try assumption.
   intros x Hx. rewrite (Hair x Hx). now apply HQ.
